@@ -104,7 +104,7 @@ class FftHooks(Hooks):
             it.probe('check:no_alias')
             exp = tag.get('expect')
             case = tag.get('case', 'plain')
-            if exp == 'refuse' and case == 'tilt':
+            if exp == 'refuse' and case in ('tilt', 'tilt-backward'):
                 w = it.resolve(ev['a'][0])
                 if not any(f.tilt for f in w.data):
                     exp = None          # premise: the wavefront really carries tilt metadata
@@ -186,7 +186,7 @@ class FftScenario(Scenario):
                    'per-axis pixel scales are generated commensurate with one propagation wavelength; otherwise FFT != DFT by construction',
                    'the DFT reference is the real propagate_dft (an error common to both propagators is C01/C02 territory)']
     must_hit = ['grid:odd', 'grid:even', 'odd_pupil_even_grid', 'multifield_scratch', 'scratch:exact', 'scratch:larger',
-                'grid_shrinks', 'grid_grows', 'refuse:short-scratch', 'refuse:tilt', 'refuse:big-shape', 'refuse:tilt-not-angular', 'shape_in_caller_array', 'field_view_edited_before_propagation', 'coarse_quick_look_first']
+                'grid_shrinks', 'grid_grows', 'refuse:short-scratch', 'refuse:tilt', 'refuse:big-shape', 'refuse:tilt-not-angular', 'shape_in_caller_array', 'field_view_edited_before_propagation', 'coarse_quick_look_first', 'refuse:tilt-backward']
     probe_names = must_hit + ['grid:mixed', 'coldwarm_audit']
 
     def make_fns(self):
@@ -379,6 +379,12 @@ class FftScenario(Scenario):
                         if sc is not None:
                             kt['scratch'] = '@' + sc
                         ev.append(E('propagate_fft', ['@' + wt], kt, t={'expect': 'refuse', 'case': 'tilt'}))
+                        if rn is not None and rng.random() < 0.5 and not peraxis:
+                            # ... and in the other direction: the image-plane result, given tilt, is not propagated back without it
+                            tb, wtb = nid('t'), nid('w')
+                            ev.append(E('Tilt', None, {'x': 2e-6, 'y': 1e-6}, id=tb))
+                            ev.append(E('Plane.multiply', ['@' + tb, '@' + rn], id=wtb))
+                            ev.append(E('propagate_fft', ['@' + wtb], {'pixelscale': dx, 'oversample': 1}, t={'expect': 'refuse', 'case': 'tilt-backward'}))
         return ev
 
     def generate(self, rng):
